@@ -1031,13 +1031,10 @@ fn c15(seed: u64, thorough: bool) -> Scenario {
             3 if comps.len() > 1 => format!("{}/**/*.{ext}", comps[0]),
             4 => format!("**/{name}"),
             5 => f.path.clone(),
-            6 => {
-                let top_only = files
-                    .iter()
-                    .filter(|x| x.path.ends_with(&format!(".{ext}")))
-                    .all(|x| !x.path.contains('/'));
-                if top_only { format!("*.{ext}") } else { format!("**/*.{ext}") }
-            }
+            // `*` crosses directory separators: `*.ext` selects matching files at every depth and
+            // `dir/*.ext` every matching file below `dir`
+            6 => format!("*.{ext}"),
+            9 if comps.len() > 1 => format!("{}/*.{ext}", comps[0]),
             _ => format!("**/*.{ext}"),
         }
     };
@@ -1254,6 +1251,19 @@ fn c18(seed: u64, thorough: bool) -> Scenario {
     if g.rng.chance(1, 3) {
         diff_mode_for_async_worlds(&mut g);
     }
+    // script paths are relative to the start directory (level B puts the scripts there)
+    if g.rng.chance(1, 3) {
+        let dirs: Vec<String> = g
+            .world
+            .files
+            .iter()
+            .filter(|f| !matches!(f.diff, FileDiff::Deleted))
+            .filter_map(|f| f.path.rsplit_once('/').map(|(d, _)| d.to_string()))
+            .collect();
+        if !dirs.is_empty() {
+            g.world.cwd = g.rng.pick(&dirs).clone();
+        }
+    }
     let (world, mut plan) = g.finish();
     // completion-order shaping: sometimes make the failing script the slowest or the fastest
     let mut prng = Rng::new(mix(seed, "yields"));
@@ -1439,7 +1449,8 @@ fn c20(seed: u64, thorough: bool) -> Scenario {
     for f in &world.files {
         for_each_block(&f.blocks, &mut |b| uses_lua |= b.has("check-lua"));
     }
-    let cwd_free = !uses_lua;
+    let cwd_free = true;
+    let _ = uses_lua;
     let mut dirs: Vec<String> = vec![String::new()];
     for f in &world.files {
         if matches!(f.diff, FileDiff::Deleted) {
